@@ -392,7 +392,7 @@ def _validate(sc):
             raise InvalidScenario("profile needs an explicit base delay")
     for pr in profs:
         bound = DELAY_FRAC.get(sc.get("klass"), 0.05)
-        if pr.get("base", 0.0) < 0 or pr.get("jitter", 0.0) < 0 or pr.get("base", 0.0) + pr.get("jitter", 0.0) > bound * p * (1 + 1e-9):
+        if pr.get("base", 0.0) < 0 or pr.get("jitter", 0.0) < 0 or pr.get("base", 0.0) + pr.get("jitter", 0.0) > bound * p * (1 + 1e-9) + 4e-9:
             raise InvalidScenario("delay bound of the healthy network exceeded")
         if set(pr) - {"base", "jitter"}:
             raise InvalidScenario("only base/jitter allowed")
@@ -421,6 +421,17 @@ def _validate(sc):
     if sc.get("horizon", 0) <= 0 or sc["horizon"] > 4000:
         raise InvalidScenario("horizon")
     return n
+
+
+def validate(sc):
+    """Structural validation only; used to prove the generator never emits an invalid scenario."""
+    if sc.get("klass") == "phi":
+        if sc.get("min_std", 0.1) <= 0 or sc.get("max_sample_size", 200) < 1 or sc.get("grid_n", 0) < 2 or any(g < 0 for g in sc["gaps"]):
+            raise InvalidScenario("phi parameters")
+        return None
+    if sc.get("klass") not in ("healthy", "healthy-moderate", "failure", "failure-early", "flap", "gossip"):
+        raise InvalidScenario("klass")
+    return _validate(sc)
 
 
 def run(sc):
